@@ -24,7 +24,7 @@ import OpcuaModel.Gen.SeqNum
     abort t              the loop returns early (`ctx.Done()`, encode / sign / write error)
     unlockInst t         deferred `instance.Unlock()`
     pendDone t           `s.pendingReq.Done()`
-    rLock                `s.reqLocker.lock()`
+    rLock                `s.reqLocker.lock()` of the renewal scheduled for the active token (one per installed token)
     rWaitBegin/rWaitDone `s.pendingReq.Wait()`  (it returns once the wait group was empty after the call)
     rLockOld             `instance.Lock()` of the token being renewed
     rCopy                `open`: new instance, `sequenceNumber` copied from the old one
@@ -94,13 +94,16 @@ structure St where
   base : Int
   /-- ghost: the thread that is in the middle of a multi-chunk message -/
   mid : Option Nat
-  /-- ghost: tokens for which a renewal was started -/
+  /-- ghost: instances (tokens) for which a renewal was started, newest first -/
   renewed : List Nat
+  /-- a renewal is still scheduled for this instance (`go s.scheduleRenewal(instance)` ran and
+      its renewal has not started yet) -/
+  sched : Nat → Bool
 
 def init (b : Int) (tk : Nat) : St :=
   { n := 0, pc := fun _ => .start, rpc := .idle, old := 0, active := 0, nInst := 1,
     seq := fun _ => b, tok := fun _ => tk, holder := fun _ => none, reqLocked := false, pend := [],
-    wire := [], base := b, mid := none, renewed := [] }
+    wire := [], base := b, mid := none, renewed := [], sched := fun i => decide (i = 0) }
 
 inductive Label where
   | spawn
@@ -182,7 +185,11 @@ def step? (s : St) : Label → Option St
     | _ => none
   | .rLock =>
     match s.rpc with
-    | .idle => some { s with rpc := .gateLocked, reqLocked := true, old := s.active, renewed := s.tok s.active :: s.renewed }
+    | .idle =>
+      if s.sched s.active then
+        some { s with rpc := .gateLocked, reqLocked := true, old := s.active, renewed := s.active :: s.renewed,
+                      sched := upd s.sched s.active false }
+      else none
     | _ => none
   | .rWaitBegin =>
     match s.rpc with
@@ -212,7 +219,7 @@ def step? (s : St) : Label → Option St
     | _ => none
   | .rInstall tk =>
     match s.rpc with
-    | .sent j => some { s with rpc := .installed j, active := j, tok := upd s.tok j tk }
+    | .sent j => some { s with rpc := .installed j, active := j, tok := upd s.tok j tk, sched := upd s.sched j true }
     | _ => none
   | .rFail =>
     match s.rpc with
